@@ -4,7 +4,7 @@ import numpy as np
 from common import *
 
 ID = "C03"
-THEOREM_FILES = ["Summer.Props.C03", "Summer.Props.C03More", "Summer.Props.C03Dopri", "Summer.Props.C04Weights", "Summer.Props.C17Glue", "Summer.Props.C17Reach"]
+THEOREM_FILES = ["Summer.Props.C03", "Summer.Props.C03More", "Summer.Props.C03Dopri", "Summer.Props.C04Weights", "Summer.Props.C17Glue"]
 TASK = "task"
 RULE = ("metamorphic on the real code: a generated base program M (any flow kinds incl. absolute / import / births, already stratified and "
         "adjusted or not) and M' = M followed by one more UNADJUSTED stratification (plain full / partial with 1-3 strata and any split summing "
